@@ -298,6 +298,11 @@ class Runner:
         except KeyError:
             # the implementation misbehaved earlier (already reported); qubit identities can no longer be followed
             self.ideal_broken = True
+        except (TypeError, ValueError, IndexError) as e:
+            # a result of the wrong shape (e.g. a measurement on a live handle answering None): that is a misbehaviour of its own
+            P.append({"prop": "C01", "what": "operation %r on a live handle returned a value of the wrong kind (%r): %s" % (op, val, e), "step": step})
+            P.append({"prop": "C06", "what": "operation %r on a live handle was treated like a stale one (returned %r)" % (op, val), "step": step})
+            self.ideal_broken = True
 
     def judge_ideal(self, op, kind, status, val, stale, new_handles, step, bad):
         net, P = self.net, self.problems
